@@ -257,6 +257,9 @@ def run_splice(case):
     tg.addTier(p.IntervalTier("target", [p.Interval(*e) for e in ents], 0, dur))
     pts = [[i / rate, l] for i, l in case["points"]]
     t_ins = case["insert"] / rate
+    if case.get("twin_point") and case["stop"] is not None and not case["align"] and t_ins > 0:
+        # two same-labelled points closer than the library's fuzzy entry equality: one just before the replaced region, one on its start
+        pts = sorted(pts + [[t_ins * (1 - 2e-10), "q"], [t_ins, "q"]])
     near = False
     if case.get("near") and t_ins > 0:
         # what ends on the insertion time ends one unit in the last place before it instead: it ended before the insertion point
@@ -468,7 +471,7 @@ def splice_cases(draw):
         ins, stop, align = c[1], c[2], False
     return {"width": width, "rate": rate, "samples": s, "segment": seg, "intervals": ivs, "points": pts,
             "insert": ins, "stop": stop, "align": align, "second": draw(st.one_of(st.none(), st.integers(0, 19))),
-            "near": draw(st.booleans()), "same_label": draw(st.integers(0, 2)) == 0}
+            "near": draw(st.booleans()), "same_label": draw(st.integers(0, 2)) == 0, "twin_point": draw(st.booleans())}
 
 
 CHECKS = [
